@@ -71,4 +71,16 @@ def holdsC12 (c : Case) (o : Summary) : Bool :=
     (decide (o.disc = [(c.smId, c.n0 + stanzaCount (processed c.ins))]) &&
      decide (o.errh = serrCount (processed c.ins) + 1)))
 
+/-- The `<resume/>` request the client writes on the connection that follows the run (the server offers stream
+management): `none` when it does not ask to resume. The model: the session keeps its stream-management state. -/
+def modelResume (c : Case) : Option (String × Nat) :=
+  let s := (clientRecv ⟨c.smId, c.n0⟩ c.ins).1
+  if s.smId == "" then none else some (s.smId, s.inbound)
+
+/-- C09, second half: "... and in a resumption request": the request carries the session's id and the number of
+stanzas received so far (the count the session started with plus the stanzas of this history). -/
+def holdsResume (c : Case) (r : Option (String × Nat)) : Bool :=
+  if c.smId == "" then r.isNone
+  else r == some (c.smId, c.n0 + stanzaCount (processed c.ins))
+
 end XmppVerif.Spec.RecvObs
